@@ -673,8 +673,12 @@ func verif_C11_rcptparams() {
 	var wantSince time.Time
 	switch key {
 	case 2: // RRVS: a concrete corpus (time parsing is not encoded symbolically)
-		corpus := []string{"2014-04-03T23:01:00Z", "1999-12-31T23:59:59Z;C", "2024-02-29T00:00:00Z;R", "2014-04-03 23:01:00Z", "2014-13-03T23:01:00Z", "yesterday", ""}
-		okv := []bool{true, true, true, false, false, false, false}
+		// (two of them with a numeric zone offset - east of UTC the offset
+		// starts with '+', which is NOT an xtext hexchar here: the value of RRVS
+		// is a date-time, not xtext; the engine keeps the instant of a parsed
+		// time and normalises its zone to UTC)
+		corpus := []string{"2014-04-03T23:01:00Z", "1999-12-31T23:59:59Z;C", "2024-02-29T00:00:00Z;R", "2014-04-04T01:01:00+02:00", "1999-12-31T18:59:59-05:00;C", "2014-04-03 23:01:00Z", "2014-13-03T23:01:00Z", "yesterday", ""}
+		okv := []bool{true, true, true, true, true, false, false, false, false}
 		k := verifChoice(len(corpus))
 		param = "RRVS=" + corpus[k]
 		switch {
@@ -682,7 +686,7 @@ func verif_C11_rcptparams() {
 			class = vInvalid
 		case okv[k]:
 			class = vValid
-			wantSince = []time.Time{time.Date(2014, 4, 3, 23, 1, 0, 0, time.UTC), time.Date(1999, 12, 31, 23, 59, 59, 0, time.UTC), time.Date(2024, 2, 29, 0, 0, 0, 0, time.UTC)}[k]
+			wantSince = []time.Time{time.Date(2014, 4, 3, 23, 1, 0, 0, time.UTC), time.Date(1999, 12, 31, 23, 59, 59, 0, time.UTC), time.Date(2024, 2, 29, 0, 0, 0, 0, time.UTC), time.Date(2014, 4, 3, 23, 1, 0, 0, time.UTC), time.Date(1999, 12, 31, 23, 59, 59, 0, time.UTC)}[k]
 		default:
 			class = vInvalid
 		}
